@@ -1,15 +1,40 @@
 """C14 (module-level): see Props/C14.v and DESIGN.md section 5."""
+import json, os
+from .. import core
 from .modcommon import run_mod
 
 PROOF = "Props/C14.v"
-RUN_FILES = ["Run/ModuleRun.v"]
-CORR_NAME = "parseM / gc / emitM models vs. real parse, gc, emit_wasm on fixtures and generated modules"
+RUN_FILES = ["Run/ModuleRun.v", "Run/ConfigRun.v"]
+CORR_NAME = "parseM / gc / emitM models vs. real parse, gc, emit_wasm on fixtures and generated modules; Model/Config.v vs. the real ModuleConfig setters / Clone on exhaustive short and random call sequences"
 ASSUMPTIONS = [
     "Model/ParseM.v, EmitM.v, GC.v are hand-written executable models of src/module/*.rs and src/passes/*.rs; attribute plumbing (Gen/Attrs.v), operator tables (Gen/Ops.v) and hook shapes are regenerated from the source; the models are tied to the code by replaying every (module, configuration) case on them and comparing the emitted section stream (this run)",
     "wasm-encoder's byte encoding of an abstract section and wasmparser's decoding are trusted and used as the differential oracle; DWARF payloads are gimli's and only their inventory is compared here",
     "validation of the input is wasmparser's and is a premise of the theorems",
+    "Model/Config.v is a hand-written model of the ModuleConfig setters and Clone; the assignments of every setter and the skeleton of Module::emit_wasm (section order, switch conditions, custom-section loop) are regenerated from the source (Gen/ConfigEmit.v) and pinned by config_source_pinned; the model is also run against the real setters (fields read from the Debug output)",
 ]
 
 
 def correspondence(ctx, thorough, search):
-    return run_mod(ctx, thorough, search, "C14")
+    res = run_mod(ctx, thorough, search, "C14")
+    out = os.path.join(ctx.work, ("search" if search else "corr") + "_cfg")
+    rc, o, dt = core.sh([core.vh(), "c14cfg", out, str(ctx.seed + (77 if search else 0)), str(6000 if thorough else 800)], timeout=600)
+    if rc != 0:
+        res["disagreements"].append({"error": "harness c14cfg failed", "out": o[-800:]})
+        return res
+    meta = json.load(open(os.path.join(out, "meta.json")))
+    results, errors = core.coq_eval(out)
+    for f, msg in errors.items():
+        res["disagreements"].append({"file": f, "coq_error": msg[-400:]})
+    n = 0
+    for f, codes in results.items():
+        n += len(codes)
+        for i, c in enumerate(codes):
+            if c != 0:
+                res["disagreements"].append({"code": c, "meaning": "the fields of the real ModuleConfig after a setter sequence differ from the model's", "file": os.path.basename(f), "case_index": i})
+    if meta.get("unreadable_debug_output"):
+        res["disagreements"].append({"error": "Debug output of ModuleConfig no longer lists every field", "count": meta["unreadable_debug_output"]})
+    cov = res.get("coverage") or {}
+    cov["traces_validated_against_impl"] = cov.get("traces_validated_against_impl", 0) + n
+    cov.setdefault("input_distribution", {})["config_setter_sequences"] = {"cases": meta["cases"], "lengths": meta["sequence_lengths"]}
+    res["coverage"] = cov
+    return res
